@@ -44,7 +44,7 @@ def retry_table(src, fname):
     for am in re.finditer(arm, rest):
         val = am.group(3) == "true"
         if am.group(1) == "_": other = val
-        elif am.group(2) == "ServerError": server = val
+        elif am.group(2) == "ServerError": server = val if server is None else (server or val)  # several arms: any that retries counts
         elif val: other = True  # an explicit non-transport variant is retried
     left = re.sub(arm, "", rest).strip()
     if left:
